@@ -353,7 +353,7 @@ def build_record(spec):  # pylint: disable=too-many-locals,too-many-branches
     length = spec["length"]
     seq = [rnd.choice("ACGT") for _ in range(length)]
     for _ in range(spec.get("dirt", 0)):
-        seq[rnd.randrange(length)] = rnd.choice("-nNRYKMxacgt-")
+        seq[rnd.randrange(length)] = rnd.choice("nNRYKMxacgt" if spec.get("gapless") else "-nNRYKMxacgt-")
     if spec.get("blank"):
         seq = [rnd.choice("-NnX") for _ in range(length)]
     annotations = {"molecule_type": "DNA", "topology": "circular" if spec["circular"] else "linear",
@@ -430,12 +430,12 @@ def record_shape(record):
             for name in ("pre_origin", "cross_origin", "post_origin"):
                 if getattr(cached, name):
                     sections.add(name)
-    return {"cds": len(record.get_cds_features()), "regions": len(record.get_regions()),
+    cdses = list(record._cds_features)  # pylint: disable=protected-access  # no accessor: those fill caches
+    return {"cds": len(cdses), "regions": len(record.get_regions()),
             "areas": len(areas), "sectioned_tuples": sectioned, "sections_filled": sorted(sections),
             "origin_spanning_area": any(len(a.location.parts) > 1 for a in areas),
-            "origin_spanning_cds": any(c.crosses_origin() for c in record.get_cds_features()),
-            "multi_exon_cds": any(len(c.location.parts) > 1 and not c.crosses_origin()
-                                  for c in record.get_cds_features()),
+            "origin_spanning_cds": any(c.crosses_origin() for c in cdses),
+            "multi_exon_cds": any(len(c.location.parts) > 1 and not c.crosses_origin() for c in cdses),
             "circular": record.is_circular(), "skip": bool(record.skip)}
 
 
